@@ -135,7 +135,7 @@ func reqObjCases(w *emit.Writer, g *gen, n int) {
 		case 6: // no signature
 			tok = b64.EncodeToString([]byte(`{"alg":"none"}`)) + "." + b64.EncodeToString(payload) + "."
 		default:
-			tok = drv.Pick(r, []string{"a.b.c", "garbage", "..", b64.EncodeToString(payload), "e30." + b64.EncodeToString(payload), "x." + b64.EncodeToString(payload) + ".y.z",
+			tok = drv.Pick(r, []string{"", "", " ", "a.b.c", "garbage", "..", b64.EncodeToString(payload), "e30." + b64.EncodeToString(payload), "x." + b64.EncodeToString(payload) + ".y.z",
 				"e30.*" + b64.EncodeToString(payload) + ".sig"})
 		}
 		// what the token parses to, read off the decoded claims
@@ -180,13 +180,13 @@ func reqObjCases(w *emit.Writer, g *gen, n int) {
 		}
 		supported := x.name != "noreqobj"
 		tags := []string{"kind=reqobj", "router=" + rt.String(), fmt.Sprintf("post=%v", post), fmt.Sprintf("supported=%v", supported), fmt.Sprintf("parses=%v", parses),
-			fmt.Sprintf("consistent=%v", parses && cidOK && rtOK && issOK && audOK), fmt.Sprintf("sig=%d", sk), "client=" + cid}
+			fmt.Sprintf("consistent=%v", parses && cidOK && rtOK && issOK && audOK), fmt.Sprintf("sig=%d", sk), "client=" + cid, fmt.Sprintf("empty=%v", tok == "")}
 		if i < 16 {
 			tags = append(tags, "f=reqobj-typed-nil")
 		}
 		w.Add(emit.Case{
-			Input: fmt.Sprintf("(IReqObj {| ro_entry := %s; ro_post := %s; ro_supported := %s; ro_parses := %s; ro_cid_ok := %s; ro_rt_ok := %s; ro_iss_ok := %s; ro_aud_ok := %s; ro_sig_ok := %s |})",
-				entry, emit.Bool(post), emit.Bool(supported), emit.Bool(parses), emit.Bool(cidOK), emit.Bool(rtOK), emit.Bool(issOK), emit.Bool(audOK), emit.Bool(sigOK)),
+			Input: fmt.Sprintf("(IReqObj {| ro_entry := %s; ro_post := %s; ro_empty := %s; ro_supported := %s; ro_parses := %s; ro_cid_ok := %s; ro_rt_ok := %s; ro_iss_ok := %s; ro_aud_ok := %s; ro_sig_ok := %s |})",
+				entry, emit.Bool(post), emit.Bool(tok == ""), emit.Bool(supported), emit.Bool(parses), emit.Bool(cidOK), emit.Bool(rtOK), emit.Bool(issOK), emit.Bool(audOK), emit.Bool(sigOK)),
 			Observed: emit.Ctor("OHint", obs),
 			Tags:     tags,
 			Human: map[string]any{"payload": short(payload), "token": short([]byte(tok)), "parse_err": fmt.Sprint(perr), "status": res.status, "location": res.location,
